@@ -1,5 +1,6 @@
 import IgrisModel.Common.Proto
 import IgrisModel.C06.Model
+import IgrisModel.C06.Model2
 import IgrisModel.C06.Spec
 open Igris.Proto Igris.C06
 
@@ -45,14 +46,13 @@ def showOutcomeN : OutcomeN → String
   | .diverged => "diverged"
   | .intovf => "intovf"
 
-/-- what the model embeds of the code's constants (op `consts`) -/
+/-- op `consts`: what the public signature and the platform fix (round 3b: the internal constants of
+printf_impl.c — PRINT_I_BUFF_SZ, PRINT_S_NULL_STR, the OPS_* masks, the digit count of %p — are not fixed by the
+property; the harness reports them as tags) -/
 def constsLine : String :=
-  "PRINT_I_BUFF_SZ=" ++ toString PRINT_I_BUFF_SZ ++
-  " PRINT_S_NULL_STR=" ++ hexOfChars PRINT_S_NULL_STR ++
-  " ptr_digits=16 int_max=" ++ toString INT_MAX ++
+  "int_max=" ++ toString INT_MAX ++
   " sizeof_pc=4 n_sizes=" ++ String.intercalate ","
-    ([Len.hh, .h, .l, .ll, .j, .z, .t, .none].map fun l => toString (nSize l)) ++
-  " ops_single_bits=1"
+    ([Len.hh, .h, .l, .ll, .j, .z, .t, .none].map fun l => toString (nSize l))
 
 def evalOp (ws : List String) : Option String :=
     match ws with
@@ -95,7 +95,8 @@ def evalOp (ws : List String) : Option String :=
               | .done out _ => out.length + 1
               | _ => 0
           let mem := List.replicate extent (Char.ofNat 0xa5)
-          match (if op = "sn" then snprintf mem l.toNat fmt args else vsnprintf mem l.toNat fmt args) with
+          -- (the closed form of Model2.lean, linear in the output: `vsnprintf_fast_eq`)
+          match (if op = "sn" then snprintfFast mem l.toNat fmt args else vsnprintfFast mem l.toNat fmt args) with
           | some (buf, ret) => pure (showRes ret buf)
           | none =>
             match printf fmt args with
